@@ -9,4 +9,4 @@ else
   git -C $lane reset -q --hard; git -C $lane checkout -q --detach $head
 fi
 (cd $lane && ./check --setup >/dev/null 2>&1)
-SEED_VERIF=$lane python3 /verif/tools/seeded_confirm.py $p $n --src /tmp/mut/out3-$p/$i 2>&1 | tail -12
+SEED_VERIF=$lane python3 /verif/tools/seeded_confirm.py $p $n --src /tmp/mut/${OUTP:-out3}-$p/$i 2>&1 | tail -12
